@@ -49,6 +49,9 @@ func LeafMeaning(l *qast.Leaf, row map[string]Value) (bool, error) {
 			if x.IsNum {
 				return false, &Outside{"pattern on a number"}
 			}
+			if strings.Contains(l.Val.Text, `\\`) {
+				return false, &Outside{"pattern with escapes"}
+			}
 			return GlobMatch(x.Str, l.Val.Text, '*', '?'), nil
 		}
 		c, err := cmp(l.Val)
